@@ -8,12 +8,14 @@ G == JsonDeserialize(IOEnv.GRAPH)
 NDuts == Len(G.duts)
 
 VARIABLES d,   \* which DUT of the batch this behaviour is about
-          s    \* implementation state (node of G.duts[d]); -1 = edge not yet known
-vars == <<d, s, q, pend, acc, hold, oprev, obs>>
+          s,   \* implementation state (node of G.duts[d]); -1 = edge not yet known
+          ph   \* toggles on a step that changes nothing else: a hung implementation (fixpoint of the product)
+               \* must be an infinite NON-stuttering behaviour, or WF_vars(Next) would let TLC walk away from it
+vars == <<d, s, q, pend, acc, hold, oprev, obs, ph>>
 
 C == G.duts[d].cfg
 
-Init == /\ d \in 1..NDuts /\ s = 0 /\ CInit
+Init == /\ d \in 1..NDuts /\ s = 0 /\ ph = 0 /\ CInit
 
 Step(iv) ==
   /\ s >= 0
@@ -21,8 +23,9 @@ Step(iv) ==
        IF e # <<>>
        THEN /\ s' = e[3] /\ d' = d
             /\ CStep(C, iv, e[2])
+            /\ ph' = IF e[3] = s /\ cvars' = cvars THEN 1 - ph ELSE 0
        ELSE /\ PrintT(<<"NEED", d, s, iv>>)
-            /\ s' = -1 /\ d' = d /\ UNCHANGED cvars
+            /\ s' = -1 /\ d' = d /\ ph' = 0 /\ UNCHANGED cvars
 
 Next == \E iv \in Inputs(C) : Step(iv)
 
